@@ -16,6 +16,7 @@ pub mod json;
 pub mod report;
 pub mod rng;
 pub mod tags;
+pub mod textobs;
 pub mod workload;
 
 use std::fmt::Write as _;
